@@ -15,6 +15,8 @@ FILES = {
     "b.rs": "// other file\nlet x = 1;\n\tassert_struct!(w, [1, 2, ..]);\nmore\nand more\n",
     "c.rs": "line one of c\nline two of c\nline three of c\nline four of c\n",
     "gone.rs": None,
+    # lines wider than any terminal: a renderer that is told a width would trim or re-centre them
+    "wide.rs": "fn wide() { let long_name_%s = 1; }\n    assert_struct!(value_with_a_long_name_%s, Pattern { field_%s: > 90, .. });\nthird\n" % ("x" * 90, "y" * 90, "z" * 90),
 }
 ANSI = re.compile(r"\x1b\[[0-9;]*m")
 
@@ -299,20 +301,22 @@ def env_stream(res):
     os.makedirs(decoy, exist_ok=True)
     for n, c in FILES.items():
         open(os.path.join(decoy, n), "w").write("".join("// decoy line %d of %s in some other checkout\n" % (i, n) for i in range(1, 9)))
-    lines = setup_files() + ["colour\tN\t%s\t%s" % (hx(d), hx(f)) for f in FILES]
+    # every file's report twice: under a plain-output guard and without one (stderr is a pipe here, so both are plain text)
+    variants = [(op, f) for op in ("N", "-") for f in FILES]
+    lines = setup_files() + ["colour\t%s\t%s\t%s" % (op, hx(d), hx(f)) for op, f in variants]
     base = run_rt_env(lines, False, False)[len(FILES):]
     names = [n for n in dict.fromkeys(repo_env_names() + STANDARD_ENV) if n != "NO_COLOR"]
     cases, impl, want = [], [], []
     for n in names:
-        for val in (decoy, "1", ""):
+        for val in (decoy, "1", "", "60", "100000"):
             out = run_rt_env(lines, False, False, extra_env={n: val})[len(FILES):]
-            for i, f in enumerate(FILES):
-                cases.append("%s=%s file=%s" % (n, "<decoy dir>" if val == decoy else repr(val), f))
+            for i, (op, f) in enumerate(variants):
+                cases.append("%s=%s file=%s%s" % (n, "<decoy dir>" if val == decoy else repr(val), f, " (under a plain-output guard)" if op == "N" else ""))
                 impl.append(out[i])
                 want.append(base[i])
     allset = run_rt_env(lines, False, False, extra_env={n: decoy for n in names})[len(FILES):]
-    for i, f in enumerate(FILES):
-        cases.append("all %d variables=<decoy dir> file=%s" % (len(names), f))
+    for i, (op, f) in enumerate(variants):
+        cases.append("all %d variables=<decoy dir> file=%s%s" % (len(names), f, " (under a plain-output guard)" if op == "N" else ""))
         impl.append(allset[i])
         want.append(base[i])
 
